@@ -63,6 +63,8 @@ TRecv     == IsEv("recv") /\ SchedRecv(Ev.id, Ev.k)
 TIdle     == IsEv("idle") /\ SchedIdle
 TObserved == IsEv("cancelobserved") /\ SchedCancelObserved
 TAllDone  == IsEv("alldone") /\ SchedAllDone
+TAcquiring == IsEv("acquiring") /\ Acquiring(Ev.id)
+TLocking  == IsEv("locking") /\ Locking(Ev.id)
 TAcquired == IsEv("acquired") /\ Acquire(Ev.id)
 TLocked   == IsEv("locked") /\ Lock(Ev.id)
 TEnter    == IsEv("enter") /\ Enter(Ev.id) /\ att'[Ev.id] = Ev.n
@@ -91,7 +93,7 @@ TraceInit == l = 1 /\ EmptyGraph /\ RunInit /\ limit = 1 /\ serial = FALSE /\ bu
 TraceNext ==
   /\ \/ TConfig \/ TAdd \/ TDep \/ TRetries \/ TDefErr \/ TSort \/ TRun
      \/ TLaunch \/ TRecv \/ TIdle \/ TObserved \/ TAllDone
-     \/ TAcquired \/ TLocked \/ TEnter \/ TFrag \/ TExit \/ TWrite \/ TFlush \/ TSending \/ TUnlock \/ TRelease
+     \/ TAcquiring \/ TLocking \/ TAcquired \/ TLocked \/ TEnter \/ TFrag \/ TExit \/ TWrite \/ TFlush \/ TSending \/ TUnlock \/ TRelease
      \/ TCancel \/ TEnvLock \/ TEnvUnlock \/ TReturned
   /\ TLCSet(1, l)   \* high-water mark of consumed lines
 
